@@ -769,7 +769,42 @@ func runRound(d desc) hlib.Case {
 	return c
 }
 
+// unsafeUnlimited reports whether reading wire as a chunked body WITHOUT a limit could make the real reader
+// allocate a huge buffer: some run of hex digits in it is a chunk size between 4 MiB and 2^50.  (Above
+// runtime.maxAlloc = 2^48 make() panics, which is recoverable and modelled; below it the Go runtime tries to
+// allocate and the whole process may die of out-of-memory.)  Such wires are read with a 1 MiB limit instead:
+// the property is about decoding what was written, not about unbounded allocation.
+func unsafeUnlimited(wire []byte) bool {
+	isHex := func(c byte) bool {
+		return c >= '0' && c <= '9' || c >= 'a' && c <= 'f' || c >= 'A' && c <= 'F'
+	}
+	for i := 0; i < len(wire); {
+		if !isHex(wire[i]) {
+			i++
+			continue
+		}
+		j := i
+		for j < len(wire) && isHex(wire[j]) {
+			j++
+		}
+		run := bytes.TrimLeft(wire[i:j], "0")
+		if len(run) > 0 && len(run) <= 15 {
+			if v, err := strconv.ParseUint(string(run), 16, 64); err == nil && v > 4<<20 && v <= 1<<50 {
+				return true
+			}
+		}
+		// longer suffixes of the run are what the reader sees after a misaligned start
+		i++
+	}
+	return false
+}
+
+const safeLimit = 1 << 20
+
 func runDecode(d desc) hlib.Case {
+	if d.Max <= 0 && unsafeUnlimited(d.Wire) {
+		d.Max = safeLimit
+	}
 	body, consumed, err, panicked := readChunkedMessage(d.Mk, d.Max, d.Wire)
 	c := hlib.Case{Kind: "decode", Size: len(d.Wire)}
 	c.Coq = hlib.App("CDecode", coqMk(d.Mk), hlib.Z(int64(d.Max)), lit(d.Wire), robs(body, consumed, err, panicked))
